@@ -48,3 +48,58 @@ def big_directed(rng, weighted=False, n=None, m=None):
         edges.append(e)
         h.add_edge(e, weight=2 if weighted else None)
     return h
+
+
+def core_periphery(rng, weighted=False, n_comp=None, connected_contiguous=False):
+    """Several components, each a dense core (one or two large hyperedges over 8-24 nodes, a few more inside) with a
+    sparse periphery hanging off it: pendant pairwise links, short paths, small pendant triples; plus isolated
+    nodes and a singleton hyperedge.  Dense-and-sparse together is the shape in which a traversal that bounds,
+    truncates or de-duplicates its frontier loses nodes (a pendant node is queued once, core nodes many times).
+    Labels are non-contiguous ints inserted in a shuffled order."""
+    import hypergraphx as hgx
+
+    h = hgx.Hypergraph(weighted=weighted)
+    nxt = [rng.choice([0, 100, -50])]
+
+    def new():
+        nxt[0] += rng.choice([1, 1, 2, 7])
+        return nxt[0]
+
+    edges = []
+    for _ in range(1 if connected_contiguous else n_comp or rng.randint(1, 3)):
+        core = [new() for _ in range(rng.randint(8, 24))]
+        edges.append(tuple(core))
+        if rng.random() < 0.5:
+            edges.append(tuple(rng.sample(core, max(2, len(core) // 2))))
+        for _ in range(rng.randint(0, 4)):
+            edges.append(tuple(rng.sample(core, rng.randint(2, 4))))
+        anchors = rng.sample(core, rng.randint(1, 3))
+        for a in anchors:
+            for _ in range(rng.randint(1, 5)):
+                shape = rng.random()
+                if shape < 0.5:  # pendant link
+                    edges.append((a, new()))
+                elif shape < 0.8:  # path of 2-4 links
+                    prev = a
+                    for _ in range(rng.randint(2, 4)):
+                        x = new()
+                        edges.append((prev, x))
+                        prev = x
+                else:  # pendant triple
+                    edges.append((a, new(), new()))
+    if connected_contiguous:  # one component, labels 0..N-1, nothing isolated (what the random walk requires)
+        labs = sorted({x for e in edges for x in e})
+        perm = list(range(len(labs)))
+        rng.shuffle(perm)
+        ren = dict(zip(labs, perm))
+        edges = [tuple(ren[x] for x in e) for e in edges]
+    else:
+        edges.append((new(),))
+    rng.shuffle(edges)
+    for e in edges:
+        e = list(e)
+        rng.shuffle(e)
+        h.add_edge(tuple(e), weight=rng.choice([0.5, 1, 2, 7]) if weighted else None)
+    for _ in range(0 if connected_contiguous else rng.randint(0, 2)):
+        h.add_node(new())
+    return h
